@@ -19,7 +19,7 @@ def run(ctx, model_available=True):
     res = config_props.run_C18(ctx, model_available=model_available)
     # (T2) the translated source of Session.setup under the mini-Python semantics, against CPython
     import py_checks
-    return py_checks.merge(res, ctx, ["session", "config", "jsonrandom"], n_each=150, model_available=model_available)
+    return py_checks.merge(res, ctx, ["session", "config", "jsonrandom", "registry"], n_each=150, model_available=model_available)
 
 
 def search(ctx, res):
